@@ -13,7 +13,7 @@ import valgen
 import xv
 from xv import log
 
-CORPUS_VERSION = "19"
+CORPUS_VERSION = "20"
 
 BOUNDARY = [0, 1, 2, 3, 0xffff, 0x10000, 0x7fffffff, 0x80000000, 0xfffffffe, 0xffffffff]
 
@@ -35,6 +35,11 @@ ELEM_SPECS = [
     "struct eo { es *p; opaque tag[1]; };\n"
     "struct ls { es items<>; unsigned int tail; };\nstruct ls5 { es5 items<4>; unsigned int tail; };\n"
     "struct lu { eu items<>; unsigned int tail; };\nstruct lo { eo items<>; eo two[2]; unsigned int tail; };\n",
+    # long fixed arrays of every primitive (an emitter that treats arrays above some length
+    # differently -- unrolled reads vs a loop or a single length check -- has a threshold)
+    "const BLOCK = 40;\ntypedef double grid[BLOCK];\n"
+    "struct wave { unsigned int rate; hyper stamps[BLOCK]; double samples[BLOCK]; float fs[33]; };\n"
+    "struct wave2 { int is[64]; unsigned hyper uh[34]; bool bs[36]; unsigned int tail; };\n",
     "enum colour { RED = 0, GREEN = 1, BLUE = 2 };\ntypedef colour clist<>;\n"
     "struct pal { colour xs<>; unsigned int tail; };\nstruct pal2 { clist c; colour ys<1073741825>; };\n"
     "typedef colour cfix[3];\nstruct pal3 { cfix three; clist more<2>; };\n",
@@ -73,7 +78,7 @@ def dense_cases(rng, cx, types, tier):
             except valgen.Unsupported:
                 continue
             e = valgen.enc(x)
-            if len(e) > 600:
+            if len(e) > 2500:
                 continue
             cases.append({"type": ty, "off": 0, "input": e, "kind": "valid", "x": x, "expect": valgen.expected_line(x, 0)})
             cases.append({"type": ty, "off": 2, "input": e + b"\x09\x08\x07", "kind": "valid_ctx", "x": x,
